@@ -235,7 +235,7 @@ def random_registry(rng):
     # names whose signature is drawn afresh for every registry: anything the parser or the type checker remembers
     # about a function NAME (rather than looking it up in the compiling environment) shows up as a verdict that
     # belongs to an earlier registry
-    for name in ("g", "h", "pick", "k2"):
+    for name in ("g", "h", "pick", "k2", "truex", "nullify", "false_1", "true", "null0", "nul", "tru"):
         n = rng.randint(0, 2)
         fns.append((name, [rng.choice(TYS) for _ in range(n)], rng.choice(TYS), "const"))
     # always some canonical ones so that every position can be filled
